@@ -26,6 +26,7 @@ type resolver struct {
 	shiftPrec types.Object
 	redPrec   types.Object // may be nil when reduceProd.Precedence is used directly
 	sw        *ast.SwitchStmt
+	helpers   []*ast.FuncDecl // same-package helpers the closure delegates guards to
 }
 
 func findResolver(c *Ctx) *resolver {
@@ -84,6 +85,122 @@ func findResolver(c *Ctx) *resolver {
 		if k != nil && k.Name() == "ActionReduce" {
 			r.reduceObj = base
 		}
+		return true
+	})
+	// roles through a helper: `a, b, ok := pick(actions)` where pick returns variables it compared
+	// with ActionShift / ActionReduce at the corresponding result positions
+	if r.shiftObj == nil || r.reduceObj == nil {
+		ast.Inspect(r.lit.Body, func(n ast.Node) bool {
+			as, ok := n.(*ast.AssignStmt)
+			if !ok || len(as.Rhs) != 1 || len(as.Lhs) < 2 {
+				return true
+			}
+			call, ok := as.Rhs[0].(*ast.CallExpr)
+			if !ok {
+				return true
+			}
+			fn := calleeFunc(info, call)
+			if fn == nil || fn.Pkg() != pk.Types {
+				return true
+			}
+			hd := p.funcDecls[fn.Origin()]
+			if hd == nil || hd.Body == nil {
+				return true
+			}
+			// role of each local of the helper by the constants its .Type is compared with
+			hroles := map[types.Object]map[string]bool{}
+			hpar := parents(hd)
+			posRoles := map[int]map[string]bool{}
+			ast.Inspect(hd.Body, func(m ast.Node) bool {
+				rs, ok := m.(*ast.ReturnStmt)
+				if !ok {
+					return true
+				}
+				facts := pathConds(info, hpar, rs)
+				for i, res := range rs.Results {
+					v := usesObj(info, res)
+					if v == nil {
+						continue
+					}
+					for _, f := range facts {
+						l, op, rr, ok := cmpFact(f.e, !f.neg)
+						if !ok || op != token.EQL || !isField(info, l, "parsergen/lr1", "Action", "Type") {
+							continue
+						}
+						if usesObj(info, l.(*ast.SelectorExpr).X) != v {
+							continue
+						}
+						if k, ok := usesObj(info, rr).(*types.Const); ok {
+							if posRoles[i] == nil {
+								posRoles[i] = map[string]bool{}
+							}
+							posRoles[i][k.Name()] = true
+						}
+					}
+				}
+				return true
+			})
+			_ = hroles
+			for i, l := range as.Lhs {
+				if rs := posRoles[i]; len(rs) == 1 {
+					if rs["ActionShift"] {
+						r.shiftObj = usesObj(info, l)
+					}
+					if rs["ActionReduce"] {
+						r.reduceObj = usesObj(info, l)
+					}
+				}
+			}
+			return true
+		})
+	}
+	// precedence / rule values obtained through a helper applied to the shift side's productions
+	ast.Inspect(r.lit.Body, func(n ast.Node) bool {
+		as, ok := n.(*ast.AssignStmt)
+		if !ok || len(as.Rhs) != 1 || len(as.Lhs) < 2 {
+			return true
+		}
+		call, ok := as.Rhs[0].(*ast.CallExpr)
+		if !ok {
+			return true
+		}
+		fn := calleeFunc(info, call)
+		if fn == nil || fn.Pkg() != pk.Types {
+			return true
+		}
+		hd := p.funcDecls[fn.Origin()]
+		if hd == nil || hd.Body == nil {
+			return true
+		}
+		side := ""
+		for _, a := range call.Args {
+			switch usesObj(info, selRootIdent(a)) {
+			case r.shiftObj:
+				side = "shift"
+			case r.reduceObj:
+				side = "reduce"
+			}
+		}
+		readsPrec := false
+		ast.Inspect(hd.Body, func(m ast.Node) bool {
+			if e, ok := m.(ast.Expr); ok && isField(info, e, "parsergen/lr1", "Prod", "Precedence") {
+				readsPrec = true
+			}
+			return true
+		})
+		if side == "" || !readsPrec {
+			return true
+		}
+		for _, l := range as.Lhs {
+			if t := info.TypeOf(l); t != nil && isNumeric(t) {
+				if side == "shift" {
+					r.shiftPrec = usesObj(info, l)
+				} else {
+					r.redPrec = usesObj(info, l)
+				}
+			}
+		}
+		r.helpers = append(r.helpers, hd)
 		return true
 	})
 	// precedence variables
@@ -630,18 +747,15 @@ func ruleCFL2(c *Ctx) {
 	c.check(okAll, rule, "lr1.resolveConflicts/all-cells", p.Pos(r.outer.Pos()), "every (state, terminal) cell is examined", "not every (state, terminal) cell is examined")
 	// resolver: only lists of exactly two actions, exactly one removal per `return true`
 	okTwo := false
-	ast.Inspect(r.lit.Body, func(n ast.Node) bool {
-		ifs, ok := n.(*ast.IfStmt)
-		if !ok {
-			return true
-		}
-		if strings.HasSuffix(exprString(ifs.Cond), ".Len() != 2") && len(ifs.Body.List) == 1 {
-			if rs, ok := ifs.Body.List[0].(*ast.ReturnStmt); ok && exprString(rs.Results[0]) == "false" {
-				okTwo = true
+	for _, sc := range funcScope(p, r.pk, r.lit, 2) {
+		for _, cb := range condBodiesOf(sc.node) {
+			if strings.HasSuffix(exprString(cb.cond), ".Len() != 2") && len(cb.body) == 1 {
+				if rs, ok := cb.body[0].(*ast.ReturnStmt); ok && len(rs.Results) > 0 && exprString(rs.Results[len(rs.Results)-1]) == "false" {
+					okTwo = true
+				}
 			}
 		}
-		return true
-	})
+	}
 	c.check(okTwo, rule, "lr1.resolveConflicts/two-actions-only", p.Pos(r.lit.Pos()), "only cells with exactly two candidates are ever resolved", "cells with more than two candidates can be 'resolved'")
 	if r.sw != nil {
 		for _, cl := range r.sw.Body.List {
@@ -664,43 +778,70 @@ func ruleCFL3(c *Ctx) {
 		return
 	}
 	info := r.pk.TypesInfo
-	// guards: `if <cond> { return false }` statements that precede the decision switch
+	// every failing condition of the resolver and of the same-package helpers it calls: a branch
+	// condition whose body ends by returning failure (false / zero values)
 	type guard struct {
-		cond ast.Expr
-		pos  token.Pos
-		top  bool
-	}
-	topLevel := map[ast.Stmt]bool{}
-	for _, st := range r.lit.Body.List {
-		topLevel[st] = true
+		cond  ast.Expr
+		owner ast.Node
 	}
 	var guards []guard
-	ast.Inspect(r.lit.Body, func(n ast.Node) bool {
-		ifs, ok := n.(*ast.IfStmt)
-		if !ok || ifs.Pos() > r.sw.Pos() || len(ifs.Body.List) == 0 {
-			return true
+	isFailReturn := func(list []ast.Stmt) bool {
+		if len(list) == 0 {
+			return false
 		}
-		if rs, ok := ifs.Body.List[len(ifs.Body.List)-1].(*ast.ReturnStmt); ok && len(rs.Results) == 1 && exprString(rs.Results[0]) == "false" {
-			guards = append(guards, guard{ifs.Cond, ifs.Pos(), topLevel[ifs]})
+		rs, ok := list[len(list)-1].(*ast.ReturnStmt)
+		if !ok || len(rs.Results) == 0 {
+			return false
 		}
-		return true
-	})
-	// (a) types: one shift, one reduce
-	typeGuard := false
-	for _, g := range guards {
-		s := exprString(g.cond)
-		if strings.Contains(s, ".Type != ActionShift") && strings.Contains(s, ".Type != ActionReduce") {
-			typeGuard = true
-		}
+		return exprString(rs.Results[len(rs.Results)-1]) == "false"
 	}
+	for _, sc := range funcScope(p, r.pk, r.lit, 2) {
+		for _, cb := range condBodiesOf(sc.node) {
+			if cb.pos > r.sw.Pos() && containsNode(r.lit, r.sw) && sc.node == ast.Node(r.lit) {
+				continue
+			}
+			if isFailReturn(cb.body) {
+				guards = append(guards, guard{cb.cond, sc.node})
+			}
+		}
+		// a `default:` arm returning failure guards everything the other arms do not accept
+		ast.Inspect(sc.node, func(n ast.Node) bool {
+			sw, ok := n.(*ast.SwitchStmt)
+			if !ok || sw.Tag != nil || sw == r.sw {
+				return true
+			}
+			var others []ast.Expr
+			failDefault := false
+			for _, cl := range sw.Body.List {
+				cc := cl.(*ast.CaseClause)
+				if cc.List == nil {
+					failDefault = isFailReturn(cc.Body)
+				} else {
+					others = append(others, cc.List...)
+				}
+			}
+			if failDefault {
+				for _, o := range others {
+					// the accepted shapes: record them as positive requirements
+					guards = append(guards, guard{&ast.UnaryExpr{Op: token.NOT, X: o}, sc.node})
+				}
+			}
+			return true
+		})
+	}
+	all := ""
+	for _, g := range guards {
+		all += exprString(g.cond) + " ;; "
+	}
+	// (a) types: one shift, one reduce
+	typeGuard := strings.Contains(all, "ActionShift") && strings.Contains(all, "ActionReduce") && strings.Contains(all, ".Type")
 	c.check(typeGuard, rule, "lr1.resolveConflicts/guard(shift-reduce-only)", p.Pos(r.lit.Pos()),
 		"resolution is refused unless one candidate is a shift and the other a reduce (reduce/reduce is never settled)", "no guard refuses pairs other than one shift + one reduce")
 	// (b) every shifting production has the same rule and level
 	sameRule := false
 	for _, g := range guards {
-		ds := disjuncts(g.cond)
 		ruleNE, precNE := false, false
-		for _, d := range ds {
+		for _, d := range disjuncts(g.cond) {
 			if be, ok := d.(*ast.BinaryExpr); ok && be.Op == token.NEQ {
 				if isField(info, be.X, "parsergen/lr1", "Prod", "Rule") || isField(info, be.Y, "parsergen/lr1", "Prod", "Rule") {
 					ruleNE = true
@@ -720,9 +861,11 @@ func ruleCFL3(c *Ctx) {
 	okC := false
 	detail := "no guard of the form `!sameRule || shiftPrec <= 0 || reducePrec <= 0`"
 	for _, g := range guards {
-		ds := disjuncts(g.cond)
+		if g.owner != ast.Node(r.lit) {
+			continue
+		}
 		var ruleOK, shOK, rdOK bool
-		for _, d := range ds {
+		for _, d := range disjuncts(g.cond) {
 			switch x := d.(type) {
 			case *ast.UnaryExpr:
 				if x.Op == token.NOT {
@@ -757,20 +900,28 @@ func ruleCFL3(c *Ctx) {
 	}
 	c.check(okC, rule, "lr1.resolveConflicts/guard(common-rule-explicit-levels)", p.Pos(r.lit.Pos()),
 		"resolution is refused unless shifting and reducing productions belong to the same rule and both carry an explicit level (> 0)", "precedence can settle a conflict it must not: "+detail)
-	// the guards precede the decision on every path
+	// the closure's own guards precede the decision on every path
 	g := p.CFG(r.pk, r.lit)
-	if g != nil && len(guards) > 0 {
+	topLevel := map[ast.Node]bool{}
+	for _, st := range r.lit.Body.List {
+		topLevel[st] = true
+	}
+	if g != nil {
 		ok := true
-		for _, gd := range guards {
-			gd := gd
-			if !gd.top {
-				continue
+		n := 0
+		ast.Inspect(r.lit.Body, func(m ast.Node) bool {
+			ifs, isIf := m.(*ast.IfStmt)
+			if !isIf || !topLevel[ifs] || ifs.Pos() > r.sw.Pos() || !isFailReturn(ifs.Body.List) {
+				return true
 			}
-			if !mustPassBefore(g, r.sw.Body.List[0].(*ast.CaseClause).List[0], func(n ast.Node) bool { return n.Pos() <= gd.cond.Pos() && gd.cond.End() <= n.End() }) {
+			n++
+			cond := ifs.Cond
+			if !mustPassBefore(g, r.sw.Body.List[0].(*ast.CaseClause).List[0], func(nn ast.Node) bool { return nn.Pos() <= cond.Pos() && cond.End() <= nn.End() }) {
 				ok = false
 			}
-		}
-		c.check(ok, rule, "lr1.resolveConflicts/guards-dominate", p.Pos(r.sw.Pos()), "every guard is evaluated before any action is removed", "a guard can be bypassed on some path to the decision")
+			return true
+		})
+		c.check(ok && n > 0, rule, "lr1.resolveConflicts/guards-dominate", p.Pos(r.sw.Pos()), "every guard of the resolver is evaluated before any action is removed", "a guard can be bypassed on some path to the decision")
 	}
 }
 
